@@ -561,6 +561,22 @@ type c20Op struct {
 	run  func(app *chain.App, ctx sdk.Context) string
 }
 
+// which DeFi modules' restored state a continuation operation exercises (printed as a matrix in the statistics)
+var c20OpModules = map[string][]string{
+	"new_vault_id": {"vault", "asset", "market", "collector"}, "vault_deposit_draw": {"vault", "market", "collector", "rewards"},
+	"stable_mint_deposit": {"vault", "rewards"}, "new_locker_id": {"locker", "collector"},
+	"locker_withdraw": {"locker"}, "locker_deposit": {"locker", "rewards"}, "locker_reward_calc": {"locker", "collector", "rewards"},
+	"new_lend_id": {"lend"}, "new_borrow_id": {"lend", "market"}, "lend_deposit_withdraw": {"lend"},
+	"new_order_id": {"liquidity"}, "new_pair_id": {"liquidity"}, "cancel_order": {"liquidity"}, "liq_deposit_request_id": {"liquidity"},
+	"liq_unfarm": {"liquidity"}, "v2_limit_bid_id": {"auctionsV2"}, "v2_limit_bid_withdraw": {"auctionsV2"},
+	"v2_market_bid_id": {"auctionsV2", "liquidationsV2", "market"}, "v2_liquidate_vault_id": {"liquidationsV2", "auctionsV2", "vault", "market"},
+	"v1_dutch_bid_id": {"auction", "liquidation", "vault"}, "v1_lend_bid": {"auction", "liquidation", "lend"},
+	"new_gauge_id": {"rewards", "liquidity"}, "ext_rewards_locker_id": {"rewards", "locker"}, "ext_rewards_stable_id": {"rewards"},
+	"second_gov_token": {"asset"}, "asset_new_ids": {"asset"}, "tokenmint_new": {"tokenmint", "asset"}, "esm_redeem": {"esm"},
+	"esm_deposit": {"esm", "tokenmint"}, "market_prices": {"market"},
+	"faithful.active_prices": {"market", "bandoracle"}, "faithful.oracle_feed_config": {"bandoracle"}, "faithful.new_vault": {"vault", "market", "bandoracle"},
+}
+
 func c20Continuation(us []sdk.AccAddress) []c20Op {
 	coin := func(d string, n int64) sdk.Coin { return sdk.NewCoin(d, sdk.NewInt(n)) }
 	m := func(msg func() sdk.Msg, obs func(app *chain.App, ctx sdk.Context) string) func(app *chain.App, ctx sdk.Context) string {
@@ -584,6 +600,91 @@ func c20Continuation(us []sdk.AccAddress) []c20Op {
 			return vaulttypes.NewMsgCreateRequest(u6, 2, 1, sdk.NewInt(100000000), sdk.NewInt(1000000))
 		},
 			func(a *chain.App, c sdk.Context) string { return u(a.VaultKeeper.GetIDForVault(c)) })},
+		{"vault_deposit_draw", func(a *chain.App, c sdk.Context) string {
+			// the one vault that is still open (vault 3 of user 4): deposit collateral, draw debt
+			ok1, _ := c20Deliver(a, c, vaulttypes.NewMsgDepositRequest(us[3], 2, 1, 3, sdk.NewInt(1000000)))
+			ok2, _ := c20Deliver(a, c, vaulttypes.NewMsgDrawRequest(us[3], 2, 1, 3, sdk.NewInt(100000)))
+			v, _ := a.VaultKeeper.GetVault(c, 3)
+			return fmt.Sprintf("%t/%t/%s/%s", ok1, ok2, v.AmountIn, v.AmountOut)
+		}},
+		{"locker_deposit", m(func() sdk.Msg {
+			return lockertypes.NewMsgDepositAssetRequest(us[1].String(), 2, sdk.NewInt(700000), 3, 2)
+		},
+			func(a *chain.App, c sdk.Context) string {
+				l, _ := a.LockerKeeper.GetLocker(c, 2)
+				return l.Depositor + "/" + l.NetBalance.String()
+			})},
+		{"locker_reward_calc", m(func() sdk.Msg { return lockertypes.NewMsgLockerRewardCalcRequest(us[1].String(), 2, 2) },
+			func(a *chain.App, c sdk.Context) string {
+				l, _ := a.LockerKeeper.GetLocker(c, 2)
+				return l.NetBalance.String() + "/" + l.ReturnsAccumulated.String()
+			})},
+		{"lend_deposit_withdraw", func(a *chain.App, c sdk.Context) string {
+			ok1, d1 := c20Deliver(a, c, lendtypes.NewMsgDeposit(us[0].String(), 2, coin("uasset2", 5000000)))
+			ok2, d2 := c20Deliver(a, c, lendtypes.NewMsgWithdraw(us[0].String(), 2, coin("uasset2", 2000000)))
+			if os.Getenv("C20_VERBOSE") != "" {
+				fmt.Println("   lend deposit/withdraw:", d1, "|", d2)
+			}
+			l, _ := a.LendKeeper.GetLend(c, 2)
+			return fmt.Sprintf("%t/%t/%s", ok1, ok2, l.AmountIn.Amount)
+		}},
+		{"liq_deposit_request_id", m(func() sdk.Msg {
+			cs, _ := sdk.ParseCoinsNormalized("3000000uasset1,3000000uasset2")
+			return liquiditytypes.NewMsgDeposit(1, u6, 1, cs)
+		}, func(a *chain.App, c sdk.Context) string {
+			p, _ := a.LiquidityKeeper.GetPool(c, 1, 1)
+			return u(p.LastDepositRequestId) + "/" + u(p.LastWithdrawRequestId)
+		})},
+		{"liq_unfarm", m(func() sdk.Msg {
+			return liquiditytypes.NewMsgUnfarm(1, 1, us[0], sdk.NewCoin("pool1-1", sdk.NewInt(400000)))
+		}, nil)},
+		{"asset_new_ids", func(a *chain.App, c sdk.Context) string {
+			cc, write := c.CacheContext()
+			if err := a.AssetKeeper.AddAssetRecords(cc, assettypes.Asset{Name: "NEWASSET", Denom: "unewasset", Decimals: sdk.NewInt(1000000), IsOnChain: true}); err != nil {
+				return "err"
+			}
+			if err := a.AssetKeeper.AddAppRecords(cc, assettypes.AppData{Name: "freshapp", ShortName: "frsh", MinGovDeposit: sdk.NewInt(0)}); err != nil {
+				return "err"
+			}
+			if err := a.AssetKeeper.AddPairsRecords(cc, assettypes.Pair{AssetIn: 4, AssetOut: 3}); err != nil {
+				return "err"
+			}
+			write()
+			return fmt.Sprintf("ok:%d/%d/%d/%d", a.AssetKeeper.GetAssetID(c), a.AssetKeeper.GetAppID(c), a.AssetKeeper.GetPairID(c), a.AssetKeeper.GetPairsVaultID(c))
+		}},
+		{"tokenmint_new", func(a *chain.App, c sdk.Context) string {
+			// a further (non-governance) genesis token of app 5 is registered and minted
+			cc, write := c.CacheContext()
+			if err := a.AssetKeeper.AddAssetRecords(cc, assettypes.Asset{Name: "REWARDTKN", Denom: "urewardtkn", Decimals: sdk.NewInt(1000000), IsOnChain: true}); err != nil {
+				return "err"
+			}
+			rt, _ := a.AssetKeeper.GetAssetForDenom(cc, "urewardtkn")
+			if err := a.AssetKeeper.AddAssetInAppRecords(cc, assettypes.AppData{Id: 5, GenesisToken: []assettypes.MintGenesisToken{
+				{AssetId: rt.Id, GenesisSupply: sdk.NewInt(5000), IsGovToken: false, Recipient: u6.String()}}}); err != nil {
+				return "err"
+			}
+			write()
+			ok, _ := c20Deliver(a, c, tokenminttypes.NewMsgMintNewTokensRequest(u6.String(), 5, rt.Id))
+			tm, _ := a.TokenmintKeeper.GetTokenMint(c, 5)
+			return fmt.Sprintf("%t/%d", ok, len(tm.MintedTokens))
+		}},
+		{"esm_deposit", m(func() sdk.Msg { return esmtypes.NewMsgDeposit(us[0].String(), 5, coin("ugov", 1000)) },
+			func(a *chain.App, c sdk.Context) string {
+				d, _ := a.EsmKeeper.GetCurrentDepositStats(c, 5)
+				return d.Balance.String()
+			})},
+		{"market_prices", func(a *chain.App, c sdk.Context) string {
+			var sb strings.Builder
+			for id := uint64(1); id <= 12; id++ {
+				p, err := a.MarketKeeper.GetLatestPrice(c, id)
+				if err != nil {
+					sb.WriteString("-,")
+				} else {
+					sb.WriteString(u(p) + ",")
+				}
+			}
+			return sb.String()
+		}},
 		{"stable_mint_deposit", m(func() sdk.Msg { return vaulttypes.NewMsgDepositStableMintRequest(u6, 2, 2, sdk.NewInt(3000000), 1) },
 			func(a *chain.App, c sdk.Context) string {
 				v, _ := a.VaultKeeper.GetStableMintVault(c, 1)
@@ -740,6 +841,20 @@ func TestC20(t *testing.T) {
 		c20RunCase(t, tr, c)
 		tr.Count("case:" + strings.SplitN(c.name, "+", 2)[0])
 	}
+	// which continuation operations exercise which module's restored state
+	matrix := map[string][]string{}
+	for _, s := range c20Stores {
+		matrix[s[0]] = []string{}
+	}
+	for op, ms := range c20OpModules {
+		for _, m := range ms {
+			matrix[m] = append(matrix[m], op)
+		}
+	}
+	for m := range matrix {
+		sort.Strings(matrix[m])
+	}
+	tr.Set("continuation_matrix", matrix)
 }
 
 func c20RunCase(t *testing.T, tr *Trace, cs c20Case) {
@@ -824,6 +939,22 @@ func c20RunCase(t *testing.T, tr *Trace, cs c20Case) {
 		}
 	}
 	tr.Line("gen.end", u(uint64(nA)), u(uint64(nB)))
+	// custody: every bank balance (users and module accounts) right after the import
+	{
+		ba, bb := c20Balances(a, ca), c20Balances(b, cb)
+		nd := 0
+		for k, v := range ba {
+			if bb[k] != v {
+				nd++
+			}
+		}
+		for k := range bb {
+			if _, ok := ba[k]; !ok {
+				nd++
+			}
+		}
+		tr.Line("gen.custody", u(uint64(len(ba))), u(uint64(len(bb))), u(uint64(nd)))
+	}
 
 	// (ii) continuation. First the faithful probe: the first block on the original and on the re-imported chain, and what a
 	// price-dependent user message does afterwards (on branches that are thrown away).
